@@ -289,6 +289,14 @@ def clustered_case(rng):
         states.append(e)
         for c in rng.sample(clusters, rng.randint(1, k)):
             R.append((e, rng.choice(c)))
+    # unfair exits: sink states (a self loop only - a trivial-size SCC, which no constraint inside a cluster can make fair)
+    # reachable from cluster states, so that 'some successor satisfies q' and 'some FAIR successor satisfies q' differ
+    for _ in range(rng.randint(0, 2)):
+        t = len(states)
+        states.append(t)
+        R.append((t, t))
+        for c in rng.sample(clusters, rng.randint(1, k)):
+            R.append((rng.choice(c), t))
     F = []
     for _ in range(rng.randint(1, 2)):
         c = rng.choice(clusters)
@@ -840,6 +848,12 @@ def build_groups(R):
         kd0, F = clustered_case(rng)
         kd, m = variant(rng, kd0)
         forms = forms_for(m)[::(6 if T else 4)] + [(l, rename(noconst(f), m or {})) for l, f in small_random_formulas(rng, 1, 2)]
+        # quantifiers nested in BOTH operands of until / release and under X: each level must be fair-rewritten
+        a, b = rng.sample([P_, Q_, ('not', P_), ('not', Q_)], 2)
+        inner = rng.choice([('E', ('X', b)), ('A', ('X', b)), ('E', ('G', b)), ('A', ('F', b)), ('and', ('not', b), ('E', ('X', b)))])
+        nested = [('CTL', ('E', ('U', a, inner))), ('CTL', ('E', ('R', inner, a))), ('CTL', ('A', ('U', inner, a))), ('CTL', ('E', ('R', a, inner))),
+                  ('CTL', ('E', ('X', ('E', ('U', a, inner))))), ('CTLS', ('E', ('U', a, inner))), ('CTLS', ('A', ('R', a, inner)))]
+        forms = forms + [(l, rename(f, m or {})) for l, f in rng.sample(nested, 4)]
         Fs = [F, list(reversed(F)), rand_F(rng, kd['S'], foreign=False)]
         groups.append({'kd': kd, 'Fs': [(Fx, rng.choice(KINDS)) for Fx in Fs], 'forms': forms})
         nf += 1
